@@ -105,6 +105,10 @@ func (tmp *tmpfile) Write(b []byte) (int, error) {
 
 func (tmp *tmpfile) cleanup() {
 	tmp.f.Close()
+	// a temp file that has not been moved into place would stay behind
+	// with the data of the failed upload; after a successful link it no
+	// longer exists under this name
+	os.Remove(tmp.f.Name())
 }
 
 func (tmp *tmpfile) File() *os.File {
